@@ -40,7 +40,7 @@ pub struct Norm<'a> {
 }
 
 const ITER_HEADS_M: &[&str] = &["vx_iter", "vx_into_iter", "vx_iter_mut", "vx_chars", "vx_char_indices", "vx_bytes", "vx_keys", "vx_values"];
-const ITER_HEADS_F: &[&str] = &["vx_range", "vx_zip", "vx_chain", "vx_once", "vx_range_incl"];
+const ITER_HEADS_F: &[&str] = &["vx_range", "vx_zip", "vx_zip_cycle", "vx_chain", "vx_once", "vx_range_incl"];
 
 impl<'a> Norm<'a> {
     pub fn new(spec: &'a FnSpec, unit: &'a Unit, canary: bool, fname: &str) -> Self {
@@ -345,6 +345,12 @@ impl<'a> VisitMut for Norm<'a> {
             }
         }
         if let Type::Path(tp) = t {
+            for seg in tp.path.segments.iter_mut() {
+                if let Some((_, to)) = self.unit.path_map.iter().find(|(f, _)| seg.ident == f.as_str()) {
+                    seg.ident = Ident::new(to, seg.ident.span());
+                    *self.log.entry("R-TYPE".to_string()).or_default() += 1;
+                }
+            }
             if let Some(seg) = tp.path.segments.last() {
                 if seg.ident == "SmallVec" {
                     if let PathArguments::AngleBracketed(ab) = &seg.arguments {
@@ -362,6 +368,18 @@ impl<'a> VisitMut for Norm<'a> {
 
     fn visit_attribute_mut(&mut self, _a: &mut Attribute) {}
 
+    fn visit_expr_path_mut(&mut self, p: &mut ExprPath) {
+        if p.path.segments.len() > 1 {
+            if let Some(seg) = p.path.segments.first_mut() {
+                if let Some((_, to)) = self.unit.path_map.iter().find(|(f, _)| seg.ident == f.as_str()) {
+                    seg.ident = Ident::new(to, seg.ident.span());
+                    self.bump("R-TYPE");
+                }
+            }
+        }
+        visit_mut::visit_expr_path_mut(self, p);
+    }
+
     fn visit_block_mut(&mut self, b: &mut Block) {
         let old = std::mem::take(&mut b.stmts);
         for mut s in old {
@@ -374,6 +392,28 @@ impl<'a> VisitMut for Norm<'a> {
                     s = Stmt::Expr(e, Some(Default::default()));
                 }
             }
+            if let Stmt::Local(l) = &s {
+                if let (Pat::Slice(ps), Some(init)) = (&l.pat, &l.init) {
+                    if init.diverge.is_none() {
+                        self.tmp_no += 1;
+                        let a = Ident::new(&format!("__vx_a{}", self.tmp_no), Span::call_site());
+                        let n = LitInt::new(&ps.elems.len().to_string(), Span::call_site());
+                        let ex = &init.expr;
+                        let mut first: Stmt = parse_quote!(let #a: [_; #n] = #ex;);
+                        let saved = std::mem::take(&mut self.hoisted);
+                        self.visit_stmt_mut(&mut first);
+                        let mine = std::mem::replace(&mut self.hoisted, saved);
+                        b.stmts.extend(mine);
+                        b.stmts.push(first);
+                        for (k, p) in ps.elems.iter().enumerate() {
+                            let k = LitInt::new(&k.to_string(), Span::call_site());
+                            b.stmts.push(parse_quote!(let #p = #a[#k];));
+                        }
+                        self.bump("R-SLICEPAT");
+                        continue;
+                    }
+                }
+            }
             let loop_stmt = match &s {
                 Stmt::Expr(Expr::While(_) | Expr::Loop(_) | Expr::ForLoop(_), _) => true,
                 _ => false,
@@ -381,11 +421,19 @@ impl<'a> VisitMut for Norm<'a> {
             let next_loop = self.loop_no + 1;
             if let Stmt::Local(l) = &mut s {
                 l.attrs.clear();
-                let name = match &l.pat {
-                    Pat::Ident(pi) => Some(pi.ident.to_string()),
-                    Pat::Type(pt) => if let Pat::Ident(pi) = &*pt.pat { Some(pi.ident.to_string()) } else { None },
-                    _ => None,
-                };
+                fn first_ident(p: &Pat) -> Option<String> {
+                    match p {
+                        Pat::Ident(pi) => Some(pi.ident.to_string()),
+                        Pat::Type(pt) => first_ident(&pt.pat),
+                        Pat::Tuple(t) => t.elems.iter().find_map(first_ident),
+                        Pat::TupleStruct(t) => t.elems.iter().find_map(first_ident),
+                        Pat::Reference(r) => first_ident(&r.pat),
+                        Pat::Paren(r) => first_ident(&r.pat),
+                        Pat::Struct(st) => st.fields.iter().find_map(|f| first_ident(&f.pat)),
+                        _ => None,
+                    }
+                }
+                let name = first_ident(&l.pat);
                 if let Some(name) = name {
                     let k = { let k = self.let_no.entry(name.clone()).or_default(); *k += 1; *k };
                     before.extend(self.anchor(&format!("before-let {}#{}", name, k)));
@@ -460,6 +508,21 @@ impl<'a> VisitMut for Norm<'a> {
             }
             Expr::If(i) => {
                 self.rewrite_if(i);
+            }
+            Expr::MethodCall(mc) => {
+                // R-MAP: map.retain(|_, v| BODY) -> map.vx_retain_values(|v| BODY)
+                if mc.method == "retain" && mc.args.len() == 1 {
+                    if let Some(Expr::Closure(c)) = mc.args.first_mut() {
+                        if c.inputs.len() == 2 && matches!(c.inputs.first(), Some(Pat::Wild(_))) {
+                            let second = c.inputs.iter().nth(1).cloned().unwrap();
+                            let mut ni = Punctuated::<Pat, Token![,]>::new();
+                            ni.push(second);
+                            c.inputs = ni;
+                            mc.method = Ident::new("vx_retain_values", mc.method.span());
+                            self.bump("R-MAP");
+                        }
+                    }
+                }
             }
             _ => {}
         }
@@ -723,6 +786,30 @@ impl<'a> VisitMut for Norm<'a> {
                                 }
                             }
                         }
+                        "or_insert" if mc.args.len() == 1 => {
+                            // R-MAP: m.entry(K).and_modify(|e| *e OP= X).or_insert(V)
+                            let mut done = false;
+                            if let Expr::MethodCall(am) = &*mc.receiver {
+                                if am.method == "and_modify" && am.args.len() == 1 {
+                                    if let (Expr::MethodCall(en), Some(Expr::Closure(cl))) = (&*am.receiver, am.args.first()) {
+                                        if en.method == "entry" && en.args.len() == 1 && cl.inputs.len() == 1 {
+                                            if let (Pat::Ident(pi), Expr::Binary(b)) = (&cl.inputs[0], &*cl.body) {
+                                                let is_deref_param = matches!(&*b.left, Expr::Unary(u) if matches!(u.op, UnOp::Deref(_)) && ts(&u.expr) == pi.ident.to_string());
+                                                let opname = match b.op { BinOp::AddAssign(_) => Some("add"), BinOp::SubAssign(_) => Some("sub"), _ => None };
+                                                if let (true, Some(opname)) = (is_deref_param, opname) {
+                                                    let (m, k, x, v) = (&en.receiver, &en.args[0], &b.right, &mc.args[0]);
+                                                    let f = Ident::new(&format!("vx_entry_{}_or_insert", opname), Span::call_site());
+                                                    replace = Some(parse_quote!(#m.#f(#k, #x, #v)));
+                                                    self.bump("R-MAP");
+                                                    done = true;
+                                                }
+                                            }
+                                        }
+                                    }
+                                }
+                            }
+                            if !done { self.errors.push(format!("`.or_insert(..)` chain outside R-MAP in {}", self.fname)); }
+                        }
                         "extend" if mc.args.len() == 1 => {
                             mc.method = Ident::new("vx_extend", mc.method.span());
                             self.bump("R-STD");
@@ -747,7 +834,20 @@ impl<'a> VisitMut for Norm<'a> {
                         "iter::once" | "std::iter::once" | "once" => Some("vx_once".to_string()),
                         _ => None,
                     });
-                    if let Some(to) = to {
+                    if let Some(mut to) = to {
+                        // zip(a, b.cycle()) -> vx_zip_cycle(a, b)
+                        if to == "vx_zip" && c.args.len() == 2 {
+                            if let Some(Expr::MethodCall(cy)) = c.args.iter().nth(1) {
+                                if cy.method == "cycle" && cy.args.is_empty() {
+                                    let base = (*cy.receiver).clone();
+                                    let first = c.args[0].clone();
+                                    c.args.clear();
+                                    c.args.push(first);
+                                    c.args.push(base);
+                                    to = "vx_zip_cycle".to_string();
+                                }
+                            }
+                        }
                         if let Ok(np) = parse_str::<Path>(&to) { p.path = np; self.bump("R-ITER"); }
                     }
                 }
